@@ -188,7 +188,7 @@ def corpus(ctx):
     rng = ctx.rng
     thorough = ctx.tier == "thorough"
     items = wasmgen.directed(random.Random(rng.randrange(1 << 30)), thorough)
-    nrand = 80 if thorough else 6
+    nrand = 120 if thorough else 6
     for k in range(nrand):
         seed = rng.randrange(1 << 30)
         items.append(wasmgen.random_item(random.Random(seed), "rand%d" % seed, size=(1.0 + (k % 3) * 0.5) if thorough else 1.0,
